@@ -69,6 +69,17 @@ def c_string_from_utf8_unchecked(m, st, f, a):
     return StrV(tuple(bs))
 
 
+@contract(r'^std::string::String::from_utf8$|^(std|core)::str::from_utf8$', 2)
+def c_string_from_utf8(m, st, f, a):
+    """Ok(text) for valid UTF-8, Err otherwise (concrete bytes are decoded; symbolic bytes are ASCII by job assumption)"""
+    v = sv(a[0])
+    bs = list(v.bytes()) if isinstance(v, StrV) else [x.e if isinstance(x, IntV) else x for x in v.f]
+    if all(isinstance(b, int) for b in bs):
+        try: bytes(bs).decode('utf-8')
+        except UnicodeDecodeError: return err(Opaque('FromUtf8Error', 'invalid utf-8'))
+    return ok(StrV(tuple(bs)))
+
+
 @contract(r'^std::string::String::from_utf8_lossy$', 2)
 def c_from_utf8_lossy(m, st, f, a):
     v = sv(a[0])
